@@ -234,8 +234,21 @@ def run(ctx):
     cases, base = [], []
     bad = 0
     done = 0
+    corpus = []
+    # one patch whose failing file patches come in the order f, g, f: one reject file per name, whoever renders them
+    fa = b"--- a/f\n+++ b/f\n@@ -1 +1 @@\n-nope1\n+x\n"
+    ga = b"--- a/g\n+++ b/g\n@@ -1 +1 @@\n-nope2\n+x\n"
+    fb = b"--- a/f\n+++ b/f\n@@ -3 +3 @@\n-nope3\n+y\n"
+    corpus.append({"files": {b"f": (b"a\nb\nc\n", 0o644), b"g": (b"a\nb\n", 0o644)}, "dirs": [], "applied": None,
+                   "series": b"aba.patch\n", "patches": {b"aba.patch": fa + ga + fb}})
+    corpus.append({"files": {b"f": (b"a\nb\nc\n", 0o644), b"g": (b"a\nb\n", 0o644), b"h": (b"a\n", 0o644)}, "dirs": [], "applied": None,
+                   "series": b"ok.patch\naba.patch\n",
+                   "patches": {b"ok.patch": b"--- a/h\n+++ b/h\n@@ -1 +1 @@\n-a\n+A\n", b"aba.patch": fa + ga + ga.replace(b"nope2", b"nope4") + fb}})
     while done < n:
-        if done % 3 == 2:
+        if corpus:
+            w = corpus.pop(0)
+            hist["corpus"] += 1
+        elif done % 3 == 2:
             w = gen_chain(rng) if done % 2 else gen_chain_stale(rng)
             hist["chain workspace"] += 1
         else:
